@@ -274,6 +274,11 @@ c03("ser_char_key", T, 16, "one Unicode scalar as a map key; length hint symboli
 c03("ser_ascii_1", Q, 8, "1 arbitrary ASCII byte as &str", body="crate::p03::ser_ascii::<1>")
 c03("ser_ascii_2", T, 14, "2 arbitrary ASCII bytes as &str (all adjacencies of escaped/plain bytes)", body="crate::p03::ser_ascii::<2>")
 c03("ser_ascii_3", T, 20, "3 arbitrary ASCII bytes as &str", body="crate::p03::ser_ascii::<3>", timeout=3000)
+for L in (2, 3, 4):
+    for first in (False, True):
+        c03("ser_nonascii_ascii_%d%s" % (L, "r" if first else ""), Q if (L, first) in ((2, False), (3, True)) else T, 12,
+            "every scalar whose UTF-8 encoding has %d bytes %s an arbitrary ASCII byte, as &str" % (L, "preceded by" if first else "directly followed by"),
+            body="crate::p03::ser_nonascii_ascii::<%d, %s>" % (L, "true" if first else "false"))
 c03("ser_str2", T, 14, "string of 0..=2 arbitrary Unicode scalars", timeout=3000)
 for t, n, q in (("u8", 4, Q), ("i8", 4, T), ("u16", 6, T), ("i16", 6, Q), ("u32", 10, T), ("i32", 11, T), ("u64", 20, T), ("i64", 20, T), ("u128", 40, T), ("i128", 40, T)):
     c03("ser_int_" + t, q, n, "every %s value as a JSON number (real itoa on both sides)" % t)
